@@ -101,7 +101,7 @@ TCaForget == /\ Is("CaForget") /\ Adv
 
 TRenewEnd == /\ Is("RenewEnd") /\ Adv
              /\ LET e == Ev.ep IN
-                bad' = Chk("C11_InStepAfterRenew", (canConv => Ev.ok) /\ (Ev.ok => InStep(e)))
+                bad' = Chk("C11_InStepAfterRenew", (canConv => Ev.ok) /\ (Ev.ok => (InStep(e) /\ Ev.ktc = cfg.kt)))
                     \* every answer to a roll-over was delivered in these histories: the key on file is the key the CA holds
                     \cup Chk("C11_RollOverByRecordedKey",
                              ((~snapCa[e].exists \/ snapImg.ep[e].url = NoVal \/ snapCa[e].key = snapImg.ep[e].kH)
